@@ -130,7 +130,14 @@ def run(ctx):
                 o = prim.origin_of_operand(pf, t.args[1])
                 takes = [c for c in o.call_nodes() if c.a["name"] == "take"]
                 okd = bool(takes) and bool(cur) and any(prim.user_local_behind(pf, c.a["term"].args[0]) == cur[0] for c in takes)
-                bad = [c.a["name"] for c in o.call_nodes() if c.a["name"] not in ("take", "as_path", "deref", "as_ref", "borrow")]
+                allowed = ("take", "as_path", "deref", "as_ref", "borrow")
+                nxt_ = [x for x, tt in pf.calls() if C.walk_role(tt) == "next"]
+                if not okd and bool(cur) and not (set(nxt_) & pf.reach_from([b])):
+                    # after the walk the remembered directory may simply be read (`current_dir.as_deref()`): nothing follows
+                    reads = [c for c in o.call_nodes() if c.a["name"] in ("as_deref", "as_ref", "clone")]
+                    okd = bool(reads) and any(prim.user_local_behind(pf, c.a["term"].args[0]) == cur[0] for c in reads)
+                    allowed = allowed + ("as_deref", "clone")
+                bad = [c.a["name"] for c in o.call_nodes() if c.a["name"] not in allowed]
                 ctx.ob("R2", "finished_dir-operand", okd and not bad, "finished_dir is told %s; must be the remembered parent directory (current_dir.take()) unchanged" % o.fmt(), fn=pf, where=prim.site(pf, b), how="provenance slice")
         if cur:
             defs = [d for d in prim.local_defs(pf).get(cur[0], []) if d[0] in pf.reachable() and d[1] != "partial"]
